@@ -54,6 +54,16 @@ def role_terms(it, modv):
     return {r: p.term for r, (n, p) in params_by_shape(it, modv).items()}
 
 
+def role_shapes(it, modv, extra=None):
+    """symbol name -> shape for a module's parameters (and `extra` symbols): what term_dim / distribute_cat read sizes from."""
+    out = dict(extra or {})
+    for _r, (_n, p) in params_by_shape(it, modv).items():
+        a = p.term.single_atom() if p.term is not None else None
+        if isinstance(a, T.Sym):
+            out[a.name] = tuple(p.shape)
+    return out
+
+
 def aff(v, W, c):
     """x W^T + c : the normal form of F.linear(x, W, c)."""
     return T.app("matmul", v, T.app("t", W)) + c
@@ -240,6 +250,52 @@ def unregularised(ck, rule, inst, site, name, term, key=None, allow=None):
     return strip_regularisers(term) if regularisers(term) else term
 
 
+def row_of_broadcast_compare(term):
+    """M = (A[None, :] == arange(K)[:, None]) is the table M[r, c] = (A[c] == r); its row k is the mask (A == k).  Rewrites
+    index(cmp(unsq(A, front), unsq(arange(K), back)), [k]) -> cmp(A, k) wherever it occurs (also with the operands exchanged)."""
+    if term is None or not hasattr(term, "all_atoms"):
+        return term
+
+    def fn(a):
+        if not (isinstance(a, T.App) and a.op == "index" and len(a.args) == 2 and len(a.args[1]) == 1 and hasattr(a.args[0], "single_atom")):
+            return None
+        k = a.args[1][0]
+        if isinstance(k, (tuple, list)):
+            return None
+        c = a.args[0].single_atom()
+        if not (isinstance(c, T.App) and c.op in ("cmp_Eq", "cmp_NotEq") and len(c.args) == 2):
+            return None
+
+        def parts(x):
+            xa = x.single_atom() if hasattr(x, "single_atom") else None
+            if isinstance(xa, T.App) and xa.op == "unsq" and len(xa.args) >= 2:
+                return xa.args[0], xa.args[1]
+            return None, None
+
+        (x0, ax0), (x1, ax1) = parts(c.args[0]), parts(c.args[1])
+        for (xa_, axa), (xb_, axb) in (((x0, ax0), (x1, ax1)), ((x1, ax1), (x0, ax0))):
+            if xa_ is None or xb_ is None:
+                continue
+            ba = xb_.single_atom() if hasattr(xb_, "single_atom") else None
+            # xa_ broadcast along the rows (new leading axis: -2 of 2, 0, 'front'), xb_ = arange(K) along the rows (new trailing axis)
+            if axa in (-2, 0, "front") and axb in (-1, 1) and isinstance(ba, T.App) and ba.op == "arange" and len(ba.args) == 1:
+                kt = k if hasattr(k, "terms") else (T.const(k) if isinstance(k, int) else None)
+                if kt is not None:
+                    return T.app(c.op, xa_, kt)
+        return None
+
+    return T.subst(term, fn)
+
+
+def within(c, fname):
+    """Was the recorded call `c` (a record of interp.calls or interp.ext_calls) made inside `fname` - directly, or in a helper
+    that fname calls?  (the call site for direct calls, the recorded stack for calls made further down)"""
+    if fname in str(c[3]):
+        return True
+    st = c[8] if len(c) > 8 else (c[5] if len(c) == 6 and isinstance(c[5], tuple) else ())
+    return any(q == fname or q.endswith("." + fname) for q in st)
+
+
 def where_cases(term, limit=4):
     """Case split of a value built with np.where / torch.where(c, a, b): yields (assignment, term) for every truth assignment
     of the (at most `limit`) distinct conditions, each `where` replaced by the branch its condition selects.  Elementwise
@@ -366,6 +422,155 @@ def count_coeff_diff(actual, expected, int_syms):
             w = r[1]
             return ("coeff", T._mono_repr(key)[:80] or "1", "%s = %s at %s" % (str(sa[key])[:60], w["got"], w["env"]), "%s = %s" % (str(se[key])[:40], w["want"]))
     return ("equal",)
+
+
+def _cat_parts(p, axis):
+    a = p.single_atom() if isinstance(p, T.Poly) else None
+    if isinstance(a, T.App) and a.op == "cat" and a.args[1] == axis and isinstance(a.args[0], tuple):
+        return list(a.args[0])
+    return None
+
+
+def term_dim(p, axis, shapes):
+    """Size (symbol name or int) of the last (-1) or second-to-last (-2) axis of a term, from the shapes of the symbols in it;
+    None when it cannot be told."""
+    if isinstance(p, T.Poly):
+        for mono in p.terms:
+            for a, _ in mono:
+                d = term_dim(a, axis, shapes)
+                if d is not None:
+                    return d
+        return None
+    if isinstance(p, T.Sym):
+        sh = shapes.get(p.name)
+        return sh[axis] if sh is not None and len(sh) >= -axis else None
+    if isinstance(p, T.App):
+        if p.op == "t":
+            return term_dim(p.args[0], -3 - axis, shapes)
+        if p.op == "matmul":
+            return term_dim(p.args[1], -1, shapes) if axis == -1 else term_dim(p.args[0], -2, shapes)
+        if p.op == "cat" and isinstance(p.args[0], tuple):
+            ds = [term_dim(x, axis, shapes) for x in p.args[0]]
+            if p.args[1] == axis:
+                return ("+",) + tuple(ds) if all(d is not None for d in ds) else None
+            return next((d for d in ds if d is not None), None)
+        if p.op in ("softplus", "sigmoid", "tanh", "abs", "neg"):
+            return term_dim(p.args[0], axis, shapes)
+    if isinstance(p, T.Exp):
+        return term_dim(p.arg, axis, shapes)
+    return None
+
+
+def distribute_cat(term, shapes):
+    """Push concatenations outwards: t(cat_-2) = cat_-1 of t; matmul(x, cat_-1) = cat_-1 of matmul; a sum of concatenations whose
+    segments have pairwise equal sizes = the concatenation of the sums; an elementwise function of a concatenation = the
+    concatenation of the function values; sum over the concatenated axis = the sum of the segments' sums.  Exact rewrites; a
+    sum of concatenations whose segment sizes are not known to agree is left as it is."""
+    def fn(a):
+        if not isinstance(a, T.App):
+            return None
+        if a.op == "t":
+            xs = _cat_parts(a.args[0], -2)
+            if xs is not None:
+                return T.app("cat", tuple(T.app("t", x) for x in xs), -1)
+        if a.op == "matmul":
+            xs = _cat_parts(a.args[1], -1)
+            if xs is not None and term_dim(a.args[1], -2, shapes) is not None:
+                return T.app("cat", tuple(T.app("matmul", a.args[0], x) for x in xs), -1)
+        if a.op in ("softplus", "sigmoid", "tanh"):
+            arg = a.args[0]
+            xs = _cat_parts(arg, -1)
+            if xs is None and isinstance(arg, T.Poly) and len(arg.terms) > 1:
+                cols = []
+                for mono, c in arg.terms.items():
+                    if len(mono) != 1 or mono[0][1] != 1:
+                        return None
+                    ps = _cat_parts(T.P(mono[0][0]), -1)
+                    if ps is None:
+                        return None
+                    cols.append((c, ps))
+                n = len(cols[0][1])
+                if any(len(ps) != n for _, ps in cols):
+                    return None
+                for k in range(n):
+                    ds = {term_dim(ps[k], -1, shapes) for _, ps in cols}
+                    if len(ds) != 1 or None in ds:
+                        return None
+                xs = [sum((T.const(c) * ps[k] for c, ps in cols), T.ZERO) for k in range(n)]
+            if xs is not None:
+                return T.app("cat", tuple(T.rebuild(a.op, [x]) for x in xs), -1)
+        if a.op == "sum" and len(a.args) >= 2 and tuple(a.args[1]) == (-1,):
+            xs = _cat_parts(a.args[0], -1)
+            if xs is not None:
+                return sum((T.app("sum", x, *a.args[1:]) for x in xs), T.ZERO)
+        return None
+
+    try:
+        return T.subst(term, fn)
+    except Exception:
+        return term
+
+
+def pairing_diff(actual, expected):
+    """Both sides are a common part plus sums, over a layer, of softplus(x W_k^T + q_k) with W_k, q_k plain parameter symbols:
+    they are the same function of (x, parameters) only if the same weight is paired with the same bias (softplus ridge functions
+    with different (weight, bias) pairs are linearly independent for generic parameter values).  Returns a description of a
+    mismatched pairing, or None when this form does not apply or the pairings agree."""
+    def split(p):
+        rest, pairs = T.ZERO, {}
+        for mono, c in p.terms.items():
+            key = None
+            if len(mono) == 1 and mono[0][1] == 1 and isinstance(mono[0][0], T.App) and mono[0][0].op == "sum":
+                arg = mono[0][0].args[0]
+                sa = arg.single_atom() if isinstance(arg, T.Poly) else None
+                if isinstance(sa, T.App) and sa.op == "softplus" and isinstance(sa.args[0], T.Poly) and len(sa.args[0].terms) == 2:
+                    w = q = None
+                    for m2, c2 in sa.args[0].terms.items():
+                        if c2 != 1 or len(m2) != 1 or m2[0][1] != 1:
+                            w = q = None
+                            break
+                        a2 = m2[0][0]
+                        if isinstance(a2, T.Sym):
+                            q = a2
+                        elif isinstance(a2, T.App) and a2.op == "matmul":
+                            ta = a2.args[1].single_atom() if isinstance(a2.args[1], T.Poly) else None
+                            wa = ta.args[0].single_atom() if isinstance(ta, T.App) and ta.op == "t" and isinstance(ta.args[0], T.Poly) else None
+                            if isinstance(wa, T.Sym):
+                                w = (a2.args[0], wa)
+                    if w is not None and q is not None:
+                        key = (w[0], w[1], q, mono[0][0].args[1:])
+            if key is None:
+                rest = rest + T.Poly({mono: c})
+            else:
+                pairs[key] = pairs.get(key, 0) + c
+        return rest, pairs
+
+    if not isinstance(actual, T.Poly) or not isinstance(expected, T.Poly):
+        return None
+    ra, pa = split(actual)
+    re_, pe = split(expected)
+    if not pa or not pe or ra != re_ or pa == pe:
+        return None
+    # the same weights and the same biases on both sides, differently matched
+    if sorted((repr(k[1]), str(c)) for k, c in pa.items()) != sorted((repr(k[1]), str(c)) for k, c in pe.items()):
+        return None
+    if sorted(repr(k[2]) for k in pa) != sorted(repr(k[2]) for k in pe):
+        return None
+    if len({k[1] for k in pa}) != len(pa) or len({k[2] for k in pa}) != len(pa):
+        return None
+    bad = sorted((repr(k[1]), repr(k[2])) for k in pa if k not in pe)
+    want = {repr(k[1]): repr(k[2]) for k in pe}
+    return "; ".join("%s is combined with %s, expected %s" % (w, q, want.get(w)) for w, q in bad)
+
+
+def shape_is(v, want):
+    """True / False / None (the analyser lost the shape: undecided) for `v` is a tensor of shape `want`."""
+    if not isinstance(v, VTens) or v.shape is None:
+        return None if isinstance(v, (VTens, VUnknown)) else False
+    sh = tuple(v.shape)
+    if any(str(d) == "?" for d in sh):
+        return None
+    return sh == tuple(want)
 
 
 def diff_verdict(d):
@@ -517,6 +722,19 @@ def some_selected(p, where=""):
         if t is None:
             continue
         key, flip = _cond_key(t)
+        # the same decision taken on the mask itself: any(basis != 'Z') - some site selected; all(basis == 'Z') - none
+        if key[0] == "t" and hasattr(key[1], "single_atom") and (not where or where in c[0]):
+            a_ = key[1].single_atom()
+            if isinstance(a_, T.App) and a_.op in ("any", "all") and hasattr(a_.args[0], "single_atom"):
+                m_ = a_.args[0].single_atom()
+                if isinstance(m_, T.App) and m_.op in ("cmp_NotEq", "cmp_Eq") and any(x.startswith("lit:") for x in m_.args[1].syms() | m_.args[0].syms()):
+                    truth = c[2] != flip
+                    if a_.op == "any" and m_.op == "cmp_NotEq":
+                        res.append(truth)
+                        continue
+                    if a_.op == "all" and m_.op == "cmp_Eq":
+                        res.append(not truth)
+                        continue
         if not pred(key):
             continue
         truth = c[2] != flip
@@ -654,6 +872,44 @@ def vec_dot_normal(t):
                 total = total + T.const(c) * T.P(T.App("dot", (x, y)))
             return total
         return None
+
+    return T.subst(t, fn)
+
+
+def pull_scalars(t, scalars):
+    """Bilinearity of dot / matmul: scalar factors (symbols named in `scalars`, and sqrt / powers of them) inside an operand are
+    moved in front: dot(P * Z^-1/2, t) -> Z^-1/2 * dot(P, t)."""
+    if t is None or not hasattr(t, "all_atoms"):
+        return t
+
+    def is_scalar(a):
+        if isinstance(a, T.Sym):
+            return a.name in scalars
+        if isinstance(a, T.App) and a.op in ("sqrt", "group"):
+            return bool(T.P(a).syms()) and T.P(a).syms() <= set(scalars)
+        return False
+
+    def fn(a):
+        if not (isinstance(a, T.App) and a.op in ("dot", "matmul") and len(a.args) == 2):
+            return None
+        coef = T.ONE
+        new = []
+        for x in a.args:
+            sm = x.single_mono() if hasattr(x, "single_mono") else None
+            if sm is None:
+                new.append(x)
+                continue
+            mono, c = sm
+            keep = T.const(c)
+            for at, pw in mono:
+                if is_scalar(at):
+                    coef = coef * T.powq(T.P(at), pw)
+                else:
+                    keep = keep * T.powq(T.P(at), pw)
+            new.append(keep)
+        if coef == T.ONE:
+            return None
+        return coef * T.P(T.App(a.op, tuple(new)))
 
     return T.subst(t, fn)
 
